@@ -1,7 +1,12 @@
 """Entry point (kept outside the package so that no module is loaded twice)."""
 import sys
+import warnings
 
-from dsim.runner import main
+# numerical warnings of the code under test / of the stub objectives are not verdicts
+warnings.filterwarnings("ignore", category=RuntimeWarning)
+warnings.filterwarnings("ignore", category=DeprecationWarning)
+
+from dsim.runner import main  # noqa: E402
 
 if __name__ == "__main__":
     sys.exit(main())
